@@ -54,7 +54,7 @@ def _classify_message(msg):
     return "tooling"
 
 
-def run_verus(path, rlimit=None, extra=None, threads=None, timeout=1800):
+def run_verus(path, rlimit=None, extra=None, threads=None, timeout=420):
     # -V spinoff-all: every function is checked in its own solver instance, so a verdict does not depend on which other
     # functions happen to be in the unit (stability against unrelated edits)
     cmd = ["verus", path, "--output-json", "--time", "--multiple-errors", "20", "--error-format=json", "-V", "spinoff-all"]
@@ -235,7 +235,8 @@ def run_unit(unit, repo, canary=False, rlimit=None, tag=None, threads=None, extr
     res["path"] = path
     res["rc"] = rc
     if err == "TIMEOUT":
-        res["undecided"].append(dict(reason="rlimit", message="verus wall-clock timeout", rendered=""))
+        # every unit verifies in well under a minute; a run that does not come back in 7 minutes is a tool hang, not a solver limit
+        res["undecided"] = [dict(reason="timeout", message="verus wall-clock timeout (420 s)", rendered="")]
     if res["undecided"]:
         res["status"] = "undecided"
     elif res["failures"]:
